@@ -29,7 +29,7 @@ func init() {
 		ID: "C06",
 		Rule: "CNF formulas as for C01 plus harder uniform 3-SAT (30..90 variables) with the learned-clause limit lowered to 4 or 16, always solved with certificate generation to a channel; the emitted lines are replayed by the verified RUP checker (GS.rupFirstBad / GS.rupRefutes) and the run is repeated with certification off. Non-trivial = the search ran (status undetermined after parsing); distinct = distinct (formula, front-end, configuration).",
 		Gens:    c06,
-		Run:     func(o *Oracle, d json.RawMessage) Outcome { return runCnfCase(o, d, "C06") },
+		Run:     func(o *Oracle, d json.RawMessage, oc *Outcome) { runCnfCase(o, d, oc, "C06") },
 		Cases:   defCases(2500, 40000),
 		Timeout: defDur(30*time.Second, 120*time.Second),
 		Wall:    defDur(50*time.Second, 12*time.Minute),
